@@ -20,8 +20,11 @@ RULE = ("(a) enumerated: every library fluid x tabulated property (every tabulat
         "outside the table) on library fluids; user-defined properties of the classes InterExtra, Constant, Linear, "
         "Polynominal, Sutherland with generated tables: value laws and integral laws (antisymmetry, additivity, bounds, "
         "derivative); mixtures with generated fractions; pump types from generated lists/coefficients with scalar and "
-        "array volume flows of either sign. Non-trivial = query outside the table or non-scalar query, integral with "
-        "distinct limits, mixture with >= 3 components, pump query containing a negative or clamped value.")
+        "array volume flows of either sign; histories of pipe creations from library types on one net (single / bulk "
+        "calls, with and without per-pipe overrides of k_mm / u_w_per_m2k): un-overridden parameters and load_std_type stay "
+        "at the library file's values. Non-trivial = query outside the table or non-scalar query, integral with "
+        "distinct limits, mixture with >= 3 components, pump query containing a negative or clamped value, pipe history "
+        "with a plain pipe created after an overridden pipe of the same type.")
 ASSUMPTIONS = ["the .txt / .csv library files are the data of record", "np.polyfit is the documented regression for pump curves"]
 EXHAUSTIVE_NOTE = "all library fluids x properties x tabulated points; all pump library types; all pipe standard types"
 NSHARDS = {"quick": 8, "thorough": 16}
@@ -421,7 +424,92 @@ def eval_pipe_types(case):
     return out
 
 
-EVAL = {"lib_table": eval_lib_table, "lib_consts": eval_lib_consts, "lib_query": eval_lib_query,
+_PIPE_LIB = None
+
+
+def pipe_library():
+    """Pipe.csv parsed here: {type name: {inner_diameter_mm, outer_diameter_mm, k_mm, u_w_per_m2k}} (expected pipe columns)."""
+    global _PIPE_LIB
+    if _PIPE_LIB is None:
+        path = os.path.join(pp_dir(), "std_types", "library", "Pipe.csv")
+        lines = [ln.rstrip("\n").split(";") for ln in open(path) if ln.strip()]
+        hdr = lines[0]
+
+        def num(s_):
+            return float(s_) if s_ not in ("", None) else float("nan")
+        lib = {}
+        for row in lines[1:]:
+            d = dict(zip(hdr, row))
+            exp = {"inner_diameter_mm": num(d["inner_diameter_mm"]), "outer_diameter_mm": num(d["outer_diameter_mm"]),
+                   "k_mm": num(d["k_mm"])}
+            u2, u1 = num(d["u_w_per_m2k"]), num(d["u_w_per_mk"])
+            exp["u_w_per_m2k"] = u2 if not math.isnan(u2) else (u1 / (exp["outer_diameter_mm"] * math.pi) * 1000.0
+                                                                   if not math.isnan(u1) else float("nan"))
+            lib[d["std_type"]] = exp
+        _PIPE_LIB = lib
+    return _PIPE_LIB
+
+
+def eval_pipe_type_history(case):
+    """A sequence of pipe creations from library types on ONE net, some with per-pipe overrides of k_mm / u_w_per_m2k
+    (single and bulk calls): every parameter that was not overridden must still be the library value - for the pipe
+    itself, for pipes of the same type created later, and for what load_std_type returns afterwards."""
+    import pandapipes as pp
+    from pandapipes.std_types.std_types import load_std_type
+    lib = pipe_library()
+    names = sorted(lib)
+    net = pp.create_empty_network(fluid=case.get("fluid", "water"))
+    j = pp.create_junctions(net, 3, 5, 300)
+    f = []
+    overridden_before = set()
+    labels = {"pipe_type_history"}
+    for step, op in enumerate(case["ops"]):
+        name = names[op["type"] % len(names)]
+        kw = {}
+        if op.get("k_mm") is not None:
+            kw["k_mm"] = op["k_mm"]
+        if op.get("u_w_per_m2k") is not None:
+            kw["u_w_per_m2k"] = op["u_w_per_m2k"]
+        if op["call"] == "single":
+            idx = [pp.create_pipe(net, j[0], j[1], name, 0.1, **kw)]
+        elif op["call"] == "bulk":
+            idx = list(pp.create_pipes(net, [j[0], j[1]], [j[1], j[2]], name, 0.1, **kw))
+        else:
+            idx = []
+        exp = dict(lib[name])
+        exp.update(kw)
+        if name in overridden_before and not kw:
+            labels.add("plain_after_override_of_same_type")
+        for i in idx:
+            r = net.pipe.loc[i]
+            for k, v in exp.items():
+                g = float(r[k])
+                if not ((math.isnan(g) and math.isnan(v)) or close(g, v, 1e-12)):
+                    f.append(Finding("pipe_types", "C19.pipe_type_history." + k,
+                                     {"type": name, "step": step, "call": op["call"], "overrides": kw, "got": g, "expected": v,
+                                      "same_type_overridden_before": name in overridden_before}))
+        st_ = load_std_type(net, name, "pipe")
+        for k in ("inner_diameter_mm", "outer_diameter_mm", "k_mm"):
+            g, v = float(st_[k]), lib[name][k]
+            if not ((math.isnan(g) and math.isnan(v)) or close(g, v, 1e-12)):
+                f.append(Finding("pipe_types", "C19.pipe_type_history.std_type_changed." + k,
+                                 {"type": name, "step": step, "got": g, "library_file": v}))
+        g = st_.get("u_w_per_m2k", float("nan"))
+        g = float("nan") if g is None else float(g)
+        v = lib[name]["u_w_per_m2k"]
+        u1 = st_.get("u_w_per_mk", float("nan"))
+        if (u1 is None or math.isnan(float(u1))) and not ((math.isnan(g) and math.isnan(v)) or close(g, v, 1e-12)):
+            f.append(Finding("pipe_types", "C19.pipe_type_history.std_type_changed.u_w_per_m2k",
+                             {"type": name, "step": step, "got": g, "library_file": v}))
+        if kw:
+            overridden_before.add(name)
+        if f:
+            break
+    return Outcome(findings=f[:3], labels=labels, nontrivial="plain_after_override_of_same_type" in labels,
+                   sample={"kind": "pipe_type_history", "ops": case["ops"]})
+
+
+EVAL = {"pipe_type_history": eval_pipe_type_history, "lib_table": eval_lib_table, "lib_consts": eval_lib_consts, "lib_query": eval_lib_query,
         "user_prop": eval_user_prop, "mixture": eval_mixture, "pump": eval_pump, "pipe_types": eval_pipe_types}
 
 
@@ -450,7 +538,18 @@ QK = st.sampled_from(["scalar", "array", "series"])  # the property quantifies o
 
 @st.composite
 def gen_case(draw):
-    kind = draw(st.sampled_from(["lib_query", "lib_query", "user_prop", "user_prop", "user_prop", "mixture", "pump", "pump"]))
+    kind = draw(st.sampled_from(["lib_query", "lib_query", "user_prop", "user_prop", "user_prop", "mixture", "pump", "pump",
+                                 "pipe_type_history"]))
+    if kind == "pipe_type_history":
+        # few distinct types so that the same type is used again after a pipe of it was created with overrides
+        pool = draw(st.lists(st.integers(0, 400), min_size=1, max_size=3))
+        ops = []
+        for _ in range(draw(st.integers(2, 6))):
+            ov = draw(st.sampled_from(["none", "none", "k", "u", "ku"]))
+            ops.append({"type": draw(st.sampled_from(pool)), "call": draw(st.sampled_from(["single", "single", "bulk", "load_only"])),
+                        "k_mm": draw(st.sampled_from([0.01, 0.7, 3.0])) if "k" in ov else None,
+                        "u_w_per_m2k": draw(st.sampled_from([0.5, 7.0, 30.0])) if "u" in ov else None})
+        return {"kind": kind, "fluid": draw(st.sampled_from(["water", "lgas"])), "ops": ops}
     if kind == "lib_query":
         prop = draw(st.sampled_from(TAB_PROPS + ["compressibility", "molar_mass", "der_compressibility"]))
         lo, hi = (150.0, 700.0) if prop in TAB_PROPS else (0.0, 120.0)
